@@ -246,28 +246,42 @@ class Extracted:
             raise bad
         src = "unicodedata.normalize(%s, %s)" % (ps[1], ps[0])
 
+        mod_strs = {k_: v_[0].value for k_, v_ in f.module.assigns.items() if len(v_) == 1 and isinstance(v_[0], ast.Constant) and isinstance(v_[0].value, str)}
+
+        class _Consts(ast.NodeTransformer):         # a module-level name for the category string stands for the string
+            def visit_Name(self, node):
+                return ast.copy_location(ast.Constant(value=mod_strs[node.id]), node) if node.id in mod_strs and isinstance(node.ctx, ast.Load) else node
+
         def keeps(test, var):
             """+1: the test is true for the characters that are kept, -1: for those that are dropped, 0: something else"""
-            t = " ".join(ast.unparse(test).split())
+            from ..core.ctx import fresh_copy
+            t = " ".join(ast.unparse(_Consts().visit(fresh_copy(test))).split())
             if t == "unicodedata.category(%s) != 'Mn'" % var or t == "not unicodedata.category(%s) == 'Mn'" % var:
                 return 1
             if t == "unicodedata.category(%s) == 'Mn'" % var or t == "not unicodedata.category(%s) != 'Mn'" % var:
                 return -1
             return 0
         body = [x for x in f.node.body if not (isinstance(x, ast.Expr) and isinstance(x.value, ast.Constant))]
+        # a local that only names the normalised string: `decomposed = unicodedata.normalize(form, string)`
+        named = [x for x in body if isinstance(x, ast.Assign) and len(x.targets) == 1 and isinstance(x.targets[0], ast.Name) and ast.unparse(x.value) == src]
+        if len(named) == 1 and sum(1 for n in ast.walk(f.node) if isinstance(n, ast.Name) and n.id == named[0].targets[0].id) == 2:
+            alias = named[0].targets[0].id
+            body = [x for x in body if x is not named[0]]
+        else:
+            alias = None
         ret = body[-1] if body and isinstance(body[-1], ast.Return) else None
         if ret is None or not (isinstance(ret.value, ast.Call) and ast.unparse(ret.value.func) == "''.join" and len(ret.value.args) == 1):
             raise bad
         arg = ret.value.args[0]
         if len(body) == 1 and isinstance(arg, (ast.GeneratorExp, ast.ListComp)) and len(arg.generators) == 1:
             g = arg.generators[0]
-            if isinstance(g.target, ast.Name) and isinstance(arg.elt, ast.Name) and arg.elt.id == g.target.id and ast.unparse(g.iter) == src \
+            if isinstance(g.target, ast.Name) and isinstance(arg.elt, ast.Name) and arg.elt.id == g.target.id and ast.unparse(g.iter) in (src, alias) \
                     and len(g.ifs) == 1 and keeps(g.ifs[0], g.target.id) == 1:
                 return
             raise bad
         # acc = []; for c in <src>: [if <dropped>: continue] acc.append(c) | if <kept>: acc.append(c); return ''.join(acc)
         if len(body) == 3 and isinstance(arg, ast.Name) and isinstance(body[0], ast.Assign) and ast.unparse(body[0]) == "%s = []" % arg.id \
-                and isinstance(body[1], ast.For) and not body[1].orelse and isinstance(body[1].target, ast.Name) and ast.unparse(body[1].iter) == src:
+                and isinstance(body[1], ast.For) and not body[1].orelse and isinstance(body[1].target, ast.Name) and ast.unparse(body[1].iter) in (src, alias):
             v, acc, lb = body[1].target.id, arg.id, body[1].body
             app = "%s.append(%s)" % (acc, v)
             if len(lb) == 2 and isinstance(lb[0], ast.If) and not lb[0].orelse and keeps(lb[0].test, v) == -1 \
